@@ -1,6 +1,6 @@
 ----------------------------- MODULE AsyncHB_MC -----------------------------
 EXTENDS AsyncHB
-CONSTANTS LevelsC, MaxT, NBr, PerBr, Type, IsMin, MRA, Ckpt, NThr, Vals, Costs, Faults, MaxRun, SD, Myopic
+CONSTANTS LevelsC, MaxT, NBr, PerBr, Type, IsMin, MRA, Ckpt, NThr, Vals, Costs, Faults, MaxRun, SD, Myopic, Completes
 
 \* (cfg files cannot hold sequences: the rung levels are given as a set)
 Levels == SetToSortSeq(LevelsC, LAMBDA a, b : a < b)
@@ -8,7 +8,7 @@ Levels == SetToSortSeq(LevelsC, LAMBDA a, b : a < b)
 PashaCap0 == Levels[IF Len(Levels) = 1 THEN 1 ELSE IF Len(Levels) - 1 < 2 THEN Len(Levels) - 1 ELSE 2]
 Conf == [levels |-> Levels, maxt |-> MaxT, nbr |-> NBr, perbr |-> PerBr, type |-> Type, min |-> IsMin, mra |-> MRA,
          ckpt |-> Ckpt, nthr |-> NThr, vals |-> Vals, costs |-> Costs, faults |-> Faults,
-         cap0 |-> IF Type = "pasha" THEN PashaCap0 ELSE MaxT, sd |-> SD, myopic |-> Myopic]
+         cap0 |-> IF Type = "pasha" THEN PashaCap0 ELSE MaxT, sd |-> SD, myopic |-> Myopic, completes |-> Completes]
 Init == InitCommon(Conf)
 Spec == Init /\ [][Next]_vars
 \* at most MaxRun trials run concurrently (n_workers)
